@@ -54,6 +54,7 @@ type PathResult struct {
 	IfConvAborted int
 	Inputs        map[string]string
 	Notes         []string
+	Emits         []string
 	Decisions     int
 }
 
@@ -89,8 +90,16 @@ type Exec struct {
 	initing   *ssa.Package
 	spec      int // >0 while evaluating a branch arm speculatively (if-conversion)
 	inShadow  bool
-	specFrame *frame
-	specLog   *[]storeRec
+	curFn     string
+
+	decided map[*Term]bool     // branch conditions already decided on this path
+	known   map[*Term]*big.Int // terms whose value is fixed by a concretisation on this path
+
+	mapOrderMode int // 0 insertion order, 1 nondeterministic (fork forward/reversed), 2 reversed
+	mapRev       int // reversed choices taken on this path
+	mapRanges    int
+	specFrame    *frame
+	specLog      *[]storeRec
 }
 
 type targetPanic struct {
@@ -188,6 +197,9 @@ func (e *Exec) decide(c *Term) bool {
 	if c.IsConst() {
 		return c.BV_
 	}
+	if d, ok := e.decided[c]; ok {
+		return d // this very condition was decided earlier on the path
+	}
 	if e.spec > 0 {
 		panic(specAbort{"symbolic branch inside a speculative region"})
 	}
@@ -199,6 +211,7 @@ func (e *Exec) decide(c *Term) bool {
 		}
 		e.assertPC(c, d.Dir)
 		e.taken = append(e.taken, d)
+		e.remember(c, d.Dir)
 		return d.Dir
 	}
 	e.pos++
@@ -219,7 +232,13 @@ func (e *Exec) decide(c *Term) bool {
 	}
 	e.assertPC(c, dir)
 	e.taken = append(e.taken, Decision{Kind: 'b', Dir: dir})
+	e.remember(c, dir)
 	return dir
+}
+
+func (e *Exec) remember(c *Term, dir bool) {
+	e.decided[c] = dir
+	e.decided[e.tf.Not(c)] = !dir
 }
 
 func appendDec(p []Decision, d Decision) []Decision {
@@ -269,6 +288,7 @@ func (e *Exec) concretize(t *Term) *big.Int {
 			e.assertPC(cond, d.Dir)
 			e.taken = append(e.taken, d)
 			if d.Dir {
+				e.known[t] = d.Val
 				return d.Val
 			}
 			continue
@@ -282,6 +302,7 @@ func (e *Exec) concretize(t *Term) *big.Int {
 		v = mv.I
 		cond = e.tf.Eq(t, e.constLike(t, v))
 		if cond.IsConst() && cond.BV_ {
+			e.known[t] = v
 			return v
 		}
 		r, m, _ := e.solver.CheckWithVars(e.tf.Not(cond), e.inputs)
@@ -294,6 +315,7 @@ func (e *Exec) concretize(t *Term) *big.Int {
 		}
 		e.assertPC(cond, true)
 		e.taken = append(e.taken, Decision{Kind: 'c', Dir: true, Val: v})
+		e.known[t] = v
 		return v
 	}
 }
@@ -440,10 +462,12 @@ func (e *Exec) assume(c Value) {
 		if e.pos < len(e.prefix) {
 			// replaying: the stored model satisfies it
 			e.solver.Assert(c)
+			e.remember(c, true)
 			return
 		}
 		if e.evalBool(c) {
 			e.solver.Assert(c)
+			e.remember(c, true)
 			return
 		}
 		r, m, _ := e.solver.CheckWithVars(c, e.inputs)
@@ -452,6 +476,7 @@ func (e *Exec) assume(c Value) {
 		case "sat":
 			e.model = m
 			e.solver.Assert(c)
+			e.remember(c, true)
 		case "unsat":
 			e.end("infeasible", "assumption unsatisfiable on this path")
 		default:
@@ -535,7 +560,7 @@ func (e *Exec) assertProp(c Value, id string) {
 
 func NewExec(p *Program, s *Solver, item PathItem) *Exec {
 	e := &Exec{P: p, tf: NewTF(), solver: s, mode: p.Mode, prefix: item.Prefix, model: item.Model,
-		inKind: map[string]string{}, covers: map[string]bool{}, notes: map[string]bool{},
+		inKind: map[string]string{}, covers: map[string]bool{}, notes: map[string]bool{}, known: map[*Term]*big.Int{}, decided: map[*Term]bool{},
 		globals: map[*ssa.Global]*Value{}, inited: map[*ssa.Package]bool{}, budget: p.Budget, verbose: p.Verbose}
 	return e
 }
@@ -776,6 +801,13 @@ func (fr *frame) get(v ssa.Value) Value {
 		return nil
 	}
 	if r, ok := fr.env[v]; ok {
+		if t, isT := r.(*Term); isT && len(fr.e.known) > 0 {
+			if kv, ok := fr.e.known[t]; ok {
+				c := fr.e.termToConcrete(fr.e.constLike(t, kv), v.Type())
+				fr.env[v] = c
+				return c
+			}
+		}
 		return r
 	}
 	panic(fmt.Sprintf("get: no value for %T %v in %s", v, v.Name(), fr.fn))
@@ -856,6 +888,7 @@ func (e *Exec) initPackage(pkg *ssa.Package) {
 }
 
 func (e *Exec) visit(fr *frame, instr ssa.Instruction) cont {
+	e.curFn = fr.fn.String()
 	switch instr := instr.(type) {
 	case *ssa.DebugRef:
 	case *ssa.UnOp:
@@ -1147,10 +1180,31 @@ func (e *Exec) rangeIter(x Value, t types.Type) Value {
 // With MapOrder=="nondet" every range execution over >=2 entries forks between forward and reversed order
 // (bounded by Program.MapOrderBudget deviations per path).
 func (e *Exec) mapOrder(entries []*mapEntry) []*mapEntry {
-	if e.P.MapOrder == nil || len(entries) < 2 {
+	if len(entries) < 2 {
 		return entries
 	}
-	return e.P.MapOrder(e, entries)
+	rev := false
+	switch e.mapOrderMode {
+	case 2:
+		rev = true
+	case 1:
+		if e.mapRev < e.P.MapOrderBudget {
+			e.mapRanges++
+			c := e.declareInput(fmt.Sprintf("maporder_%d", e.mapRanges), SBool, 0, nil, nil, "bool")
+			rev = e.decide(c)
+			if rev {
+				e.mapRev++
+			}
+		}
+	}
+	if !rev {
+		return entries
+	}
+	r := make([]*mapEntry, len(entries))
+	for i := range entries {
+		r[len(entries)-1-i] = entries[i]
+	}
+	return r
 }
 
 func (e *Exec) next(it Value, instr *ssa.Next) Value {
